@@ -190,8 +190,21 @@ def vlookup(table, key, col):
 
 
 def choose(index, values):
-    if not (isinstance(index, int) and not isinstance(index, bool)):
+    if isinstance(index, bool):
         raise Unjudged('non-integer-index')
+    if isinstance(index, float) and index != int(index):
+        # Excel truncates a fractional index.  Below 1 it is outside 1..n
+        # under every reading; between 1 and n the truncated index selects;
+        # between n and n+1 the statement ("outside 1..n") and Excel's
+        # truncation disagree: not judged.
+        if index < 1:
+            return VALUE
+        if index < len(values):
+            return values[int(index) - 1]
+        if index > len(values) + 1:
+            return VALUE
+        raise Unjudged('fractional-index-between-n-and-n+1')
+    index = int(index)
     if 1 <= index <= len(values):
         return values[index - 1]
     return VALUE
